@@ -3,7 +3,9 @@
 
 mod c04;
 mod c05;
+mod c24;
 mod c27;
+mod c30;
 mod hist;
 mod report;
 mod world;
@@ -16,6 +18,10 @@ fn main() {
         ("validate-shapes", _) => c04::validate_shapes(),
         ("C04", "--replay") => c04::replay(&args[3]),
         ("C04", tier) => c04::check(tier),
+        ("C24", "--replay") => c24::replay(&args[3]),
+        ("C24", tier) => c24::check(tier),
+        ("C30", "--replay") => c30::replay(&args[3]),
+        ("C30", tier) => c30::check(tier),
         ("C27", "--replay") => c27::replay(&args[3]),
         ("C27", tier) => c27::check(tier),
         ("C05", "--replay") => c05::replay(&args[3]),
